@@ -250,7 +250,7 @@ func c18Command(c *core.Ctx, k *core.Case) {
 	if d := cmpSubLists(model, back); d != "" {
 		c.Fail(k, "list-roundtrip", fmt.Sprintf("%s (bytes %s)", d, hx(content)))
 	}
-	if ch, _ := appendProbe(reflect.ValueOf(&back)); ch {
+	if ch, _ := appendProbe(reflect.ValueOf(&back)); ch || probeLists(reflect.ValueOf(&back)) {
 		c.Fail(k, "decoded-slices-share-capacity:list", fmt.Sprintf("appending to the contents of one decoded policy part changed another part of the list (bytes %s)", hx(content)))
 	}
 	// every level's own MarshalBinary (list, sublist, contents, instruction, section, part):
@@ -562,7 +562,7 @@ func c18Total(c *core.Ctx, k *core.Case) {
 			err, v = l.UnmarshalBinary(b), l
 		}
 		if err == nil {
-			if ch, _ := appendProbe(reflect.ValueOf(v)); ch {
+			if ch, _ := appendProbe(reflect.ValueOf(v)); ch || probeLists(reflect.ValueOf(v)) {
 				c.Fail(k, "decoded-slices-share-capacity:"+c18Targets[k.I[0]], fmt.Sprintf("appending to one byte slice of the value decoded from %s changed another part of it", hx(k.B[0])))
 			}
 		}
